@@ -19,9 +19,15 @@ HARNESSES = [
     _h("write_at", ["stdio_write_at"]),
     _h("write_all", ["write_all"]),
     _h("realize_sparse", ["realize_sparse", "write_all"], malloc_fail=True,
-       flags=["--memory-leak-check"]),
-    _h("append", ["realize_sparse", "write_all"], malloc_fail=True,
-       flags=["--memory-leak-check"], timeout=600),
-    _h("flush", ["realize_sparse", "write_all"], malloc_fail=True,
-       flags=["--memory-leak-check"], timeout=600),
+       flags=["--memory-leak-check"],
+       instrument_flags=["--replace-calls", "write_all:c12_write_all_contract"]),
+    # loop-free after the two callees are replaced by their contracts; the
+    # loops= entry only makes the driver run goto-instrument (instrument_flags
+    # are ignored otherwise) - the rows annotate the now unreachable callee
+    _h("append", ["write_all"], loop_rows_reachable=0,
+       instrument_flags=["--replace-calls", "write_all:c12_write_all_contract",
+                         "--replace-calls", "realize_sparse:c12_realize_sparse_contract"]),
+    _h("flush", ["write_all"], loop_rows_reachable=0,
+       instrument_flags=["--replace-calls", "write_all:c12_write_all_contract",
+                         "--replace-calls", "realize_sparse:c12_realize_sparse_contract"]),
 ]
